@@ -83,7 +83,12 @@ class RefFSM:
             key = ('cond', ev, origin)
             n = self.counts[key] = self.counts.get(key, 0) + 1
             self.log.append(('cb', 'cond', ev, origin, self.state, dict(data)))
-            res.append(cond_value(script, n, self.state))
+            try:
+                res.append(cond_value(script, n, self.state))
+            except (LookupError, ValueError, AttributeError) as err:
+                # an exception inside a callback is a failure of the event handler: the caller
+                # gets it and the simulation is stopped (never 'callback not defined')
+                raise RefError(f"callback failed: {type(err).__name__}") from None
         return all(res)
 
     def run_action(self, hook, state, data):
@@ -205,6 +210,12 @@ def cond_value(script, n, state):
         return n % 2 == script[1]
     if kind == 'instate':
         return state == script[1]
+    if kind == 'raise':
+        # a failing condition callback (n-th call only): a handler failure like any other
+        if n == script[2]:
+            raise {'KeyError': KeyError, 'ValueError': ValueError, 'IndexError': IndexError,
+                   'AttributeError': AttributeError}[script[1]]('scripted callback failure')
+        return True
     raise AssertionError(script)
 
 
@@ -622,7 +633,9 @@ def random_spec(rng):
             'on_output': rng.choice([0, 1, 1]),
             'initdef': rng.choice([None, None] + states)}
     conds = [['const', True], ['const', False], ['const', 1], ['const', 0], ['const', 'x'],
-             ['const', None], ['alt', 0], ['alt', 1], ['instate', rng.choice(states)]]
+             ['const', None], ['alt', 0], ['alt', 1], ['instate', rng.choice(states)],
+             ['raise', rng.choice(['KeyError', 'ValueError', 'IndexError', 'AttributeError']),
+              rng.choice([1, 2, 3])]]
     for ev in evs:
         if rng.random() < 0.4:
             spec['cond_m'][ev] = rng.choice(conds)
